@@ -132,15 +132,15 @@ Definition modelled_kinds : list string := [
   "DropContinuousQueryCommand"; "NotifyCQLeaseChangedCommand"; "CreateMetaNodeCommand"; "SetMetaNodeCommand";
   "DeleteMetaNodeCommand"; "CreateSqlNodeCommand"; "UpdateNodeTmpIndexCommand"; "MarkTakeoverCommand"; "MarkBalancerCommand";
   "VerifyDataNodeCommand"; "RegisterQueryIDOffsetCommand";
-  "ExpandGroupsCommand"   (* its effect on the catalogue is an abstract function (config.cfg_expandf) *)
+  "ExpandGroupsCommand";  (* any function of the catalogue in the theorems (config.cfg_expandf); C16.Expand.expand_groups in the correspondence *)
+  "UpdatePtVersionCommand"; "UpdateNodeStatusCommand"; "UpdateSqlNodeStatusCommand"; "UpdateMetaNodeStatusCommand";
+  "UpdateShardInfoTierCommand"; "UpdateIndexInfoTierCommand"; "CreateStreamCommand"; "DropStreamCommand";
+  "RemoveNodeCommand"     (* C16.Model.RemoveNode; the per-node tables of Cmds.v follow the node list *)
 ].
 (* ... or covered by the coverage tables and the three-replica differential only *)
 Definition unmodelled_kinds : list string := [
-  "SetDataCommand"; "DeleteDataNodeCommand"; "ReShardingCommand"; "UpdateSchemaCommand"; "AlterShardKeyCmd";
-  "UpdateShardInfoTierCommand"; "UpdateIndexInfoTierCommand"; "UpdateNodeStatusCommand"; "UpdateSqlNodeStatusCommand";
-  "UpdateMetaNodeStatusCommand"; "CreateEventCommand"; "UpdateEventCommand"; "RemoveEventCommand";
-  "CreateDownSamplePolicyCommand"; "DropDownSamplePolicyCommand"; "UpdateShardDownSampleInfoCommand"; "CreateStreamCommand";
-  "DropStreamCommand"; "UpdatePtVersionCommand"; "SetNodeSegregateStatusCommand"; "RemoveNodeCommand";
+  "SetDataCommand"; "DeleteDataNodeCommand"; "ReShardingCommand"; "UpdateSchemaCommand"; "AlterShardKeyCmd"; "CreateEventCommand"; "UpdateEventCommand"; "RemoveEventCommand";
+  "CreateDownSamplePolicyCommand"; "DropDownSamplePolicyCommand"; "UpdateShardDownSampleInfoCommand"; "SetNodeSegregateStatusCommand";
   "UpdateReplicationCommand"; "UpdateMeasurementCommand"; "InsertFilesCommand"; "ReplaceMergeShardsCommand"; "RecoverMetaData"
 ].
 
